@@ -365,7 +365,10 @@ Definition msg_group (key : list Z) : option (list Z) :=
 Fixpoint sumz (l : list Z) : Z := match l with [] => 0 | x :: r => x + sumz r end.
 
 (* acceptConsumerGroup, from what the two regular expressions answer for the group:
-   a_set / d_set = the allowlist / denylist is configured; a_m / d_m = it matches the group *)
+   a_set / d_set = the allowlist / denylist is configured, i.e. Configure found a NON-EMPTY pattern text under
+   group-allowlist / group-denylist and compiled it (module.groupAllowlist / groupDenylist is not nil).  A key that is
+   absent and a key that is present with the empty string (config/burrow.toml ships group-allowlist="") both mean
+   "no list": a_set / d_set = false.  a_m / d_m = the compiled pattern matches the group. *)
 Definition reader_accept (a_set a_m d_set d_m : bool) : bool := (negb a_set || a_m) && negb (d_set && d_m).
 
 (* ---------- where a request goes ---------- *)
